@@ -122,6 +122,25 @@ def _coverage(ck, cluster, main, src):
             env[n.targets[0].id] = norm_in(ctx, cluster, n.value, env=dict(env))
     seed_terms = [norm_in(ctx, cluster, el, env=dict(env)) for el in seeds]
     first_plus_one = ("concat", (T.mk_idx(S, C(0)), ("list", (C(1),))))
+    # the clustering may be skipped only for an empty input list
+    guards = []
+    for pa in explore(ck, cluster, unroll=(1,)):
+        if any(e.kind in ("iter", "foriter") and (e.node is main or getattr(e.node, "lineno", None) == main.lineno) for e in pa.events):
+            own = {id(n) for n in ast.walk(cluster.node)}
+            for c, tv, node in pa.state.assumptions:
+                if id(node) not in own or not isinstance(node, ast.If):
+                    continue          # a test inside a followed helper
+                encloses = any(x is main for x in ast.walk(node))
+                leaves_early = node.lineno < main.lineno and any(isinstance(x, (ast.Return, ast.Raise)) for x in ast.walk(node))
+                if encloses or leaves_early:
+                    guards.append((T.as_bool(c), tv, node))
+            break
+    for c, tv, node in guards:
+        c0, pos = T.positive(c)
+        truth = tv if pos else (not tv)
+        ck.judge(c0 == T.as_bool(S) and truth is True, "C20.1", "cluster_indels:guard", where(cluster, node),
+                 "calls are clustered whenever there are any: the only way round the loop is an empty input list",
+                 found=("" if tv else "not ") + T.show(c)[:120], required=f"{src} non-empty")
     if it == S:
         ck.judge(not seed_terms, "C20.1", "cluster_indels:coverage", w, "the loop visits every call and nothing is put into the "
                  "cluster list beforehand", found=f"{len(seed_terms)} element(s) seeded before a loop over the whole list")
@@ -163,6 +182,19 @@ def _writer_conserves(ck, writer, cluster):
                  "the list handed to cluster_indels is one of the finders' lists, only sorted - every call takes part",
                  found=T.show(arg)[:200] if arg is not None else "None",
                  required="cluster_indels(sorted(<list of the dictionary>, key=(chromosome, stop)))")
+    leaves = []
+    for x, node in calls:
+        arg = list(dict(x[3]).values())[0] if x[3] else None
+        leaf = _only_sorted(arg, from_dict) if arg is not None else None
+        if leaf is not None:
+            leaves.append((leaf, node))
+    keys = [lf[2] if lf[0] == "idx" else (lf[3][0] if lf[0] == "mcall" and lf[3] else None) for lf, _ in leaves]
+    fixed = all(k is not None and k[0] == "c" and (isinstance(k[1], str) or (isinstance(k[1], int) and k[1] >= 0)) for k in keys)
+    ck.judge(len(leaves) == len(calls) and len({lf for lf, _ in leaves}) == len(leaves) and fixed, "C20.4",
+             "write_indel_file:both-lists", writer.where,
+             "the clustered lists are different entries of the finders' dictionary, each named by a key or a fixed position from the "
+             "front (an entry clustered twice - e.g. [0] and [-1] of a one- or two-entry dictionary - drops the other type's calls)",
+             found="; ".join(T.show(lf)[-60:] for lf, _ in leaves), required="two distinct entries, e.g. values()[0] and values()[1]")
     # what is written: iteration over sorted(concat of the clustered lists)
     loops = [e for e in pa.events if e.kind == "foriter"]
     written = None
@@ -175,6 +207,20 @@ def _writer_conserves(ck, writer, cluster):
     ck.judge(written is not None and len(written[0][1]) == len(calls), "C20.4", "write_indel_file:written", writer.where,
              "the lines written are all clusters of both types (concatenation of the clustered lists, only sorted)",
              found="; ".join(T.show(e.term)[:120] for e in loops) or "no loop over the clusters")
+    if written is not None:
+        # ... and each of them is handed to write(): a call <file>.write(<something built from the loop's element>) after the
+        # loop's element was taken
+        e_loop = written[1]
+        k = pa.events.index(e_loop)
+        elem = None
+        outs = []
+        for e in pa.events[k + 1:]:
+            if e.kind == "call" and e.term[0] == "mcall" and e.term[2] in ("write", "writelines") and e.term[3]:
+                outs.append(e)
+        per_line = [e for e in outs if any(x[0] == "elem" and T.contains(x, written[0]) for x in T.subterms(e.term[3][0]))]
+        ck.judge(bool(per_line), "C20.4", "write_indel_file:line-written", where(writer, e_loop.node),
+                 "every cluster the loop visits is written to the file", found=f"{len(outs)} write call(s) after the loop head, "
+                 f"{len(per_line)} of them built from the loop's element", required="f.write(<the cluster's fields joined>) in the loop body")
 
 
 def run(ck):
@@ -373,6 +419,10 @@ def run(ck):
                     inc_ev.append(e)
                 if idx == C(ix["QueryId"]) and T.contains(val, T.mk_idx(line, C(ix["QueryId"]))):
                     id_ev.append(e)
+                    ck.judge(T.contains(val, T.mk_idx(last, C(ix["QueryId"]))), "C20.1", "cluster_indels:merge-ids",
+                             where(cluster, e.node), "a merge keeps the query ids the cluster already holds and adds the new one "
+                             "(every input query id appears in exactly one cluster)", found=T.show(val)[:160],
+                             required="str(cluster[QueryId]) + ',' + str(line[QueryId])")
                 if val[0] == "call" and val[1] == "min" and set(val[2]) == {T.mk_idx(last, idx), T.mk_idx(line, idx)}:
                     min_ev.append((idx, e))
                 if val[0] == "call" and val[1] == "max" and set(val[2]) == {T.mk_idx(last, idx), T.mk_idx(line, idx)}:
